@@ -1468,7 +1468,7 @@ def _check_case_gen(ctx: Ctx, case, pending):
             uses_pinv = case["solver"] == "PINV" or (case["solver"] == "default" and env.default_solver == "PINV")
             if well and uses_pinv and A.numel() and case["opt"] == "GN":
                 # minimum norm: D orthogonal to the null space of A
-                _, S_, Vh = torch.linalg.svd(A, full_matrices=True)
+                _, S_, Vh = torch.linalg.svd(A, full_matrices=bool(A.shape[0] < A.shape[1]))
                 rk = int((S_ > 2 * eps * smax).sum())
                 N0 = Vh[rk:]
                 floor_ = 1e4 * eps * rnorm(b) / float(pos.min())
@@ -2347,6 +2347,8 @@ def system_of(case):
     with contextlib.redirect_stdout(io.StringIO()), warnings.catch_warnings():
         warnings.simplefilter("ignore")
         env.opt.step(env.input, target=env.target, weight=None)
+    if not env.sol_log:
+        raise RuntimeError("the solver was never called")
     return env.sol_log[0]["A"], env.sol_log[0]["b"].reshape(-1)
 
 
@@ -2400,9 +2402,12 @@ def check_split(ctx: Ctx, case):
 
 def run_large(ctx: Ctx, pending):
     rng = random.Random(7_0710 + ctx.seed)
-    big = [(2 ** 14 + 1, "GN", "float64"), (2 ** 14 + 1, "LM", "float32")] if ctx.quick else \
-          [(2 ** 14 + 1, "GN", "float64"), (2 ** 14 + 1, "LM", "float32"), (2 ** 16 + 1, "GN", "float32"), (2 ** 16 + 1, "LM", "float64"),
-           (2 ** 15, "GN", "float64"), (2 ** 14 - 1, "LM", "float64")]
+    # a step() costs O(N^2) here (torch's row-by-row Jacobian back-propagates through the whole batch for every row): 2^12+1 rows
+    # in quick (0.3 s), 2^14+1 in thorough (5 s each); 2^16+1 rows would take minutes and GBs — the entry points that are
+    # linear in N (update_parameter, the correctors) are run at 2^16+1 in run_large_update / run_large_corrector
+    big = [(2 ** 12 + 1, "GN", "float64"), (2 ** 12 + 1, "LM", "float32")] if ctx.quick else \
+          [(2 ** 12 + 1, "GN", "float64"), (2 ** 12 + 1, "LM", "float32"), (2 ** 14 + 1, "GN", "float32"), (2 ** 14 + 1, "LM", "float64"),
+           (2 ** 13, "GN", "float64"), (2 ** 13 - 1, "LM", "float64")]
     cases = []
     for N, opt, dt_ in big:
         cases.append(large_case(rng, N, opt, dt_, shape=([N] if opt == "GN" else ([5, N // 5] if N % 5 == 0 else [1, N]))))
@@ -2416,7 +2421,7 @@ def run_large(ctx: Ctx, pending):
         N = len(c["leaves"][2]["values"])
         ctx.note_case(("large", c["opt"], N, c["dtype"]), True)
         ctx.count(f"large.step.N{N if N > 2000 else 'small'}")
-        if N > 2000 or N in (33, 129):
+        if N > 2000 or N in (33, 129, 1025):
             check_split(ctx, c)
     flush(ctx, pending)
 
@@ -2523,6 +2528,48 @@ def run_large_update(ctx: Ctx, pending):
         ctx.note_case(("large-update", g, N, dt_), True)
         ctx.count(f"large.update.{g}.N{N}")
     flush(ctx, pending)
+
+
+def run_large_corrector(ctx: Ctx):
+    """(19) the configured correctors on 2^16+1 residual items (exact / tiny / inlier / outlier mixed): whole == pieces and
+    first / last / middle item == the item alone, up to the rounding of the d-term sums"""
+    P = pp()
+    import pypose.optim.corrector as C
+    N = 2 ** 16 + 1
+    gen = torch.Generator().manual_seed(70712)
+    for dt_ in (("float64",) if ctx.quick else ("float64", "float32")):
+        D_ = U.dt(dt_)
+        eps = EPS[dt_]
+        for cname, kspec in (("FastTriggs", {"name": "Huber", "args": [1.0]}), ("Triggs", {"name": "UserQuad", "args": [0.3]}),
+                             ("FastTriggs", {"name": "Cauchy", "args": [0.5]})):
+            R = torch.randn(N, 2, generator=gen, dtype=torch.float64)
+            R[::5] *= 1e-9; R[3::11] = 0.0; R[4::13] *= 30.0
+            J = torch.randn(2 * N, 3, generator=gen, dtype=torch.float64)
+            R, J = R.to(D_), J.to(D_)
+            case = {"kind": "large-corrector", "corrector": cname, "kernel": kspec, "N": N, "dtype": dt_}
+
+            def corr(r_, j_):
+                c_ = getattr(C, cname)(build_kernel(kspec))
+                with torch.no_grad():
+                    a_, b_ = c_(R=r_.clone(), J=j_.clone())
+                return raw(a_).clone(), raw(b_).clone()
+            try:
+                Rw, Jw = corr(R, J)
+                cut = 1 << 16
+                R1, J1 = corr(R[:cut], J[:2 * cut]); R2, J2 = corr(R[cut:], J[2 * cut:])
+                scR = R.double().abs().amax(1, keepdim=True) + 1e-300
+                okc = (bool(((Rw.double() - torch.cat([R1, R2]).double()).abs() <= 64 * eps * scR * (1 + Rw.double().abs() / scR)).all())
+                       and bool(((Jw.double() - torch.cat([J1, J2]).double()).abs() <= 64 * eps * (Jw.double().abs() + J.double().abs())).all()))
+                for i_ in (0, N - 1, N // 2, 3, 4):
+                    Ri, Ji = corr(R[i_:i_ + 1], J[2 * i_:2 * i_ + 2])
+                    okc = okc and bool(((Rw[i_:i_ + 1].double() - Ri.double()).abs() <= 64 * eps * (Rw[i_:i_ + 1].double().abs() + scR[i_:i_ + 1])).all()) \
+                        and bool(((Jw[2 * i_:2 * i_ + 2].double() - Ji.double()).abs() <= 64 * eps * (Ji.double().abs() + J[2 * i_:2 * i_ + 2].double().abs())).all())
+                if not okc or not bool(torch.isfinite(Rw).all()) or not bool(torch.isfinite(Jw).all()):
+                    ctx.fail(case, f"split: {cname}({kspec['name']}) on {N} residual items is not the stack of its values on the pieces / single items")
+            except Exception as e:
+                ctx.fail(case, f"split: {cname}({kspec['name']}) on {N} residual items raises {type(e).__name__}: {str(e)[:160]}")
+            ctx.note_case(("large-corrector", cname, kspec["name"], dt_), True)
+            ctx.count("large.corrector.N65537")
 
 
 def run_ctor_checks(ctx: Ctx):
@@ -2658,6 +2705,37 @@ def corner_cases():
         for k_ in (0.5, 1.0, 3.0):
             out.append(make_case(rng, opt="GN", ptypes=[["G", "SO3"]], bshape=[3], full=True, nres=1, depth=1, target="near",
                                  tscale=k_ * EPS[dt_], ncalls=1, kmode="none", wmode="none", **{**quiet, "dtype": dt_}))
+    # ---- pass 4 (classes 19-28) ---------------------------------------------------------------------------------------
+    q4 = {**quiet, "subclass": 0.0, "defdtype": 0.0, "tie_clamp": 0.0, "dup": 0.0, "poison": 0.0, "zero_block": 0.0}
+    # (20) clamp bounds exactly equal to diagonal entries (min, max, both, min == max); identical items; a zero weight block
+    for k_ in range(6):
+        c = make_case(rng, opt="LM", ncalls=1, nbad=2, ptypes=[["G", rng.choice(U.GROUPS)], ["E", 3]], bshape=[3], **{**q4, "tie_clamp": 1.0})
+        out.append(c)
+    for opt in ("GN", "LM"):
+        out.append(make_case(rng, opt=opt, bshape=[3], full=True, ncalls=1, nbad=0, wmode="ctor", wsuffix=1, **{**q4, "dup": 1.0}))
+        out.append(make_case(rng, opt=opt, bshape=[2, 2], ncalls=1, nbad=1, wmode="step", wsuffix=2, **{**q4, "zero_block": 1.0}))
+    # (21) user subclasses of the optimizers, solvers, strategies, correctors and kernels
+    for opt, sv in (("GN", "PINV"), ("GN", "LSTSQ"), ("LM", "Cholesky"), ("LM", "PINV"), ("LM", "default")):
+        c = make_case(rng, opt=opt, solver=sv, nres=2, kmode="list", auto_list=True, ncalls=2, nbad=1, **{**q4, "subclass": 1.0})
+        out.append(c)
+    for km in ("auto", "fast", "triggs"):
+        for ks in ({"name": "SubQuad:Huber", "args": [0.3]}, {"name": "SubQuad:Cauchy", "args": [0.2]}):
+            out.append(make_case(rng, opt=rng.choice(["GN", "LM"]), kmode=km, kernel_spec=ks, ncalls=1, nbad=0, target="near", tscale=1.0,
+                                 **{**q4, "subclass": 1.0}))
+    # (23) a throw-away first step under inference_mode / no_grad on the same shapes, then the judged history
+    for pm in ("inference", "no_grad"):
+        for opt in ("GN", "LM"):
+            c = make_case(rng, opt=opt, ncalls=2, nbad=0, kmode="none", **{**q4, "poison": 1.0})
+            c["poison"] = pm
+            out.append(c)
+    # (25) float32 operands under a float64 process default (and every metadata check that goes with it)
+    for opt in ("GN", "LM"):
+        for km in ("none", "auto"):
+            out.append(make_case(rng, opt=opt, kmode=km, ncalls=2, nbad=1, wmode="step", **{**q4, "dtype": "float32", "defdtype": 1.0}))
+    # (26) residuals of one sign (all negative / all positive), all-zero residuals
+    for tm in ("above", "below"):
+        for opt in ("GN", "LM"):
+            out.append(make_case(rng, opt=opt, target=tm, tscale=0.5, ncalls=1, nbad=0, **q4))
     # frozen parameter (known defect on the current tree)
     out.append(make_case(rng, opt="GN", ptypes=[["E", 3], ["G", "SE3"]], frozen=[True, False], dtype="float64"))
     out.append(make_case(rng, opt="LM", ptypes=[["G", "SO3"], ["A", "SE3"], ["S"]], frozen=[False, True, False], dtype="float64"))
@@ -2715,6 +2793,7 @@ def run(ctx: Ctx):
     flush(ctx, pending)
     run_ctor_checks(ctx)
     run_large_update(ctx, pending)
+    run_large_corrector(ctx)
     run_large(ctx, pending)
     run_cases(ctx, corner_cases(), pending)
     flush(ctx, pending)
